@@ -766,79 +766,187 @@ func singleAssignments(info *types.Info, body *ast.BlockStmt) (defs map[types.Ob
 }
 
 func c01SplatUpgrade(c *Ctx) {
-	c.Rule("R7 splat.upgrade: in SplatExpr.Value the condition that wraps the source in a single-element tuple, and the condition that turns a null source into the empty tuple, are evaluated (as boolean expressions over cty type-kind predicates of the source's type) for every type kind: true exactly for the kinds that are not tuple, list or set — the specification's auto-upgrade rule")
-	fd, pkg := c.P.LookupDecl("hclsyntax", "SplatExpr.Value")
-	if fd == nil {
+	c.Rule("R7 splat.upgrade: in SplatExpr.Value the block that wraps the source in a single-element tuple, and the return of the empty tuple for a null source, are reachable — with the cty type-kind predicates of the source's type fixed to each type kind in turn and every other condition left open — exactly for the kinds that are not tuple, list or set: the specification's auto-upgrade rule")
+	fn := c.P.LookupFunc("hclsyntax", "SplatExpr.Value")
+	if fn == nil {
 		c.CheckerFail("splat.upgrade", "anchor SplatExpr.Value does not resolve")
 		return
 	}
-	c.Fn(declName(pkg, fd))
-	info := pkg.TypesInfo
-	defs, first := singleAssignments(info, fd.Body)
-	isCty := func(call *ast.CallExpr, name string) bool {
-		o := calleeObj(info, call)
-		return o != nil && o.Pkg() != nil && o.Pkg().Path() == ctyPath && o.Name() == name
-	}
-	var wrapIf, nullIf *ast.IfStmt
-	ast.Inspect(fd.Body, func(n ast.Node) bool {
-		is, ok := n.(*ast.IfStmt)
-		if !ok {
-			return true
-		}
-		for _, st := range is.Body.List {
-			switch s := st.(type) {
-			case *ast.AssignStmt:
-				ast.Inspect(s, func(m ast.Node) bool {
-					if call, ok := m.(*ast.CallExpr); ok && isCty(call, "TupleVal") && len(call.Args) == 1 {
-						if cl, ok := call.Args[0].(*ast.CompositeLit); ok && len(cl.Elts) == 1 && wrapIf == nil {
-							wrapIf = is
+	c.Fn(FuncName(fn))
+	// target blocks
+	var wrap, empty *ssa.BasicBlock
+	for _, b := range fn.Blocks {
+		for _, ins := range b.Instrs {
+			switch x := ins.(type) {
+			case *ssa.Call:
+				if cal := x.Call.StaticCallee(); cal != nil && isFunc(cal, ctyPath, "TupleVal") && wrap == nil {
+					if sl, ok := x.Call.Args[0].(*ssa.Slice); ok {
+						if al, ok := sl.X.(*ssa.Alloc); ok && len(storesInto(al)) == 1 {
+							wrap = b
 						}
 					}
-					return true
-				})
-			case *ast.ReturnStmt:
-				if len(s.Results) > 0 && strings.HasPrefix(exprStr(s.Results[0]), "cty.EmptyTupleVal") && nullIf == nil {
-					nullIf = is
+				}
+			case *ssa.Return:
+				if len(x.Results) > 0 && empty == nil {
+					var fromEmpty func(v ssa.Value, d int) bool
+					fromEmpty = func(v ssa.Value, d int) bool {
+						if d > 4 {
+							return false
+						}
+						switch y := v.(type) {
+						case *ssa.UnOp:
+							if g, ok := y.X.(*ssa.Global); ok && g.Name() == "EmptyTupleVal" {
+								return true
+							}
+						case *ssa.Call:
+							if len(y.Call.Args) > 0 && calleeOf(&y.Call).isCtyValueMethod("WithSameMarks", "WithMarks", "Mark") {
+								return fromEmpty(y.Call.Args[0], d+1)
+							}
+						}
+						return false
+					}
+					if fromEmpty(lookThrough(x.Results[0]), 0) {
+						empty = b
+					}
 				}
 			}
 		}
-		return true
-	})
-	check := func(name string, is *ast.IfStmt) {
-		if is == nil {
-			c.Fail("splat.upgrade", "hclsyntax.SplatExpr.Value:"+name, fd.Pos(), "the "+name+" branch of the auto-upgrade rule was not found")
+	}
+	check := func(name string, target *ssa.BasicBlock) {
+		if target == nil {
+			c.Fail("splat.upgrade", "hclsyntax.SplatExpr.Value:"+name, fn.Pos(), "the "+name+" branch of the auto-upgrade rule was not found")
 			return
 		}
-		k := &kindEval{info: info, defs: defs}
 		var wrong []string
 		for _, kind := range tyKinds {
-			v, ok := k.eval(is.Cond, kind)
-			if !ok {
-				c.Undecided("splat.upgrade", "hclsyntax.SplatExpr.Value:"+name, is.Pos(), k.reason)
-				return
-			}
+			got := kindReachable(fn, target, kind)
 			want := kind != "tuple" && kind != "list" && kind != "set"
-			if v != want {
-				wrong = append(wrong, fmt.Sprintf("%s→%v", kind, v))
-			}
-		}
-		// the type variable is the type of the value of e.Source
-		okSrc := false
-		if k.tyObj != nil {
-			if call, ok := first[k.tyObj].(*ast.CallExpr); ok {
-				if sel, ok := call.Fun.(*ast.SelectorExpr); ok && sel.Sel.Name == "Type" {
-					if id, ok := sel.X.(*ast.Ident); ok {
-						if d, ok := first[info.ObjectOf(id)].(*ast.CallExpr); ok && strings.HasSuffix(exprStr(d.Fun), ".Source.Value") {
-							okSrc = true
-						}
-					}
-				}
+			if got != want {
+				wrong = append(wrong, fmt.Sprintf("%s→%v", kind, got))
 			}
 		}
 		c.Sites++
-		c.Check(len(wrong) == 0 && okSrc, "splat.upgrade", "hclsyntax.SplatExpr.Value:"+name, is.Pos(), "upgrade ⇔ kind ∉ {tuple,list,set} over "+fmt.Sprint(len(tyKinds))+" type kinds",
-			"auto-upgrade decision differs from the specification for type kinds: "+strings.Join(wrong, " ")+map[bool]string{true: "", false: " (predicates are not applied to the type of the splat source)"}[okSrc])
+		c.Check(len(wrong) == 0, "splat.upgrade", "hclsyntax.SplatExpr.Value:"+name, target.Instrs[0].Pos(), "reached ⇔ kind ∉ {tuple,list,set} over "+fmt.Sprint(len(tyKinds))+" type kinds",
+			"auto-upgrade decision differs from the specification for type kinds: "+strings.Join(wrong, " "))
 	}
-	check("wrap", wrapIf)
-	check("null", nullIf)
+	check("wrap", wrap)
+	check("null", empty)
+}
+
+// kindReachable: is target reachable from fn's entry when every cty.Type kind predicate evaluates
+// as for a type of the given kind and every other condition may go either way? Boolean values
+// computed from the predicates are carried along each explored path.
+func kindReachable(fn *ssa.Function, target *ssa.BasicBlock, kind string) bool {
+	type env map[ssa.Value]bool
+	var eval func(v ssa.Value, e env, d int) (val, known bool)
+	eval = func(v ssa.Value, e env, d int) (bool, bool) {
+		if r, ok := e[v]; ok {
+			return r, true
+		}
+		if d > 10 {
+			return false, false
+		}
+		switch x := v.(type) {
+		case *ssa.Const:
+			if x.Value != nil && (x.Value.String() == "true" || x.Value.String() == "false") {
+				return x.Value.String() == "true", true
+			}
+		case *ssa.UnOp:
+			if x.Op == token.NOT {
+				r, ok := eval(x.X, e, d+1)
+				return !r, ok
+			}
+			if x.Op == token.MUL {
+				// a boolean local: its only store
+				if al, ok := x.X.(*ssa.Alloc); ok {
+					if sts := storesInto(al); len(sts) == 1 && sts[0].Addr == ssa.Value(al) {
+						return eval(sts[0].Val, e, d+1)
+					}
+				}
+			}
+		case *ssa.Call:
+			if cal := x.Call.StaticCallee(); cal != nil && cal.Signature.Recv() != nil && isNamed(cal.Signature.Recv().Type(), ctyPath, "Type") {
+				if tab, ok := tyPredicates[cal.Name()]; ok {
+					return tab[kind], true
+				}
+			}
+		case *ssa.BinOp:
+			// T == cty.DynamicPseudoType is false for a concrete kind
+			if x.Op == token.EQL || x.Op == token.NEQ {
+				for _, y := range []ssa.Value{x.X, x.Y} {
+					if ld, ok := y.(*ssa.UnOp); ok {
+						if g, ok := ld.X.(*ssa.Global); ok && g.Name() == "DynamicPseudoType" {
+							return x.Op == token.NEQ, true
+						}
+					}
+				}
+			}
+		}
+		return false, false
+	}
+	sig := func(b, prev *ssa.BasicBlock, e env) string {
+		var ks []string
+		for v, r := range e {
+			ks = append(ks, fmt.Sprintf("%s=%v", v.Name(), r))
+		}
+		sort.Strings(ks)
+		pi := -1
+		if prev != nil {
+			pi = prev.Index
+		}
+		return fmt.Sprintf("%d<%d|%s", b.Index, pi, strings.Join(ks, ","))
+	}
+	seen := map[string]bool{}
+	found := false
+	var visit func(b, prev *ssa.BasicBlock, e env, depth int)
+	visit = func(b, prev *ssa.BasicBlock, e env, depth int) {
+		if found || depth > 400 {
+			return
+		}
+		// phis first, from the edge taken
+		e2 := env{}
+		for k, v := range e {
+			e2[k] = v
+		}
+		for _, ins := range b.Instrs {
+			phi, ok := ins.(*ssa.Phi)
+			if !ok {
+				break
+			}
+			delete(e2, phi)
+			if bt, ok := phi.Type().Underlying().(*types.Basic); ok && bt.Kind() == types.Bool && prev != nil {
+				for k, p := range b.Preds {
+					if p == prev {
+						if r, known := eval(phi.Edges[k], e, 0); known {
+							e2[phi] = r
+						}
+					}
+				}
+			}
+		}
+		key := sig(b, prev, e2)
+		if seen[key] {
+			return
+		}
+		seen[key] = true
+		if b == target {
+			found = true
+			return
+		}
+		if iff, ok := lastIf(b); ok && len(b.Succs) == 2 {
+			if v, known := eval(iff.Cond, e2, 0); known {
+				if v {
+					visit(b.Succs[0], b, e2, depth+1)
+				} else {
+					visit(b.Succs[1], b, e2, depth+1)
+				}
+				return
+			}
+		}
+		for _, su := range b.Succs {
+			visit(su, b, e2, depth+1)
+		}
+	}
+	visit(fn.Blocks[0], nil, env{}, 0)
+	return found
 }
